@@ -48,14 +48,13 @@ def base_facts(with_X):
 def grid(with_X, need_fit=True):
     """Small concrete instances used only to exhibit witnesses."""
     out = []
-    for n in (4, 5, 6, 7, 8):
-        for w in (1, 2, 3):
-            for fh in ([1], [2], [1, 2], [1, 3], [2, 3], [1, 2, 3]):
-                for nx in ((1, 2) if with_X else (0,)):
-                    ints = {"n": n, "w": w, "T": 40 + n}
-                    if with_X:
-                        ints["nx"] = nx
-                    out.append(Env(ints, {"fh": list(fh)}))
+    for n in (4, 5, 7):
+        for w in (1, 2):
+            for fh in ([1], [2], [1, 3], [1, 2, 3]):
+                ints = {"n": n, "w": w, "T": 40 + n}
+                if with_X:
+                    ints["nx"] = 2
+                out.append(Env(ints, {"fh": list(fh)}))
     return out
 
 
@@ -135,10 +134,9 @@ def make_interp(repo, rec, with_X):
 
 # ----------------------------------------------------------------- content helpers
 def resolve(content, q, depth=6, **kw):
-    """Follow stored scalar elements to what they hold."""
+    """Follow stored scalar elements to what they hold (as of the moment they were read)."""
     while content is not None and content[0] == "val" and isinstance(content[1], Elem) and depth > 0:
-        e = content[1]
-        content = e.arr.cell(e.coords, q, **kw)
+        content = content[1].content(q, **kw)
         depth -= 1
     return content
 
@@ -149,7 +147,7 @@ def opaque(content):
         return True
     if content[0] == "val":
         v = content[1]
-        return not isinstance(v, (CallV, Lin))
+        return not isinstance(v, (CallV, Lin, tuple))
     return content[0] in ("agg-sym",)
 
 
@@ -195,7 +193,26 @@ def feasible(envs, facts):
     return [e for e in envs if e.holds(facts) is True]
 
 
-def eq_lin(ctx, rule, construct, loc, got, want, facts, envs, what):
+def loop_envs(env, loops):
+    """Extend a concrete instance by every iteration of the given counting loops."""
+    out = [env]
+    for lp in loops or ():
+        v = list(lp.var.symbols())[0]
+        nxt = []
+        for e in out:
+            try:
+                lo, hi = int(e.eval(lp.it.lo)), int(e.eval(lp.it.hi))
+            except Uneval:
+                continue
+            for x in range(lo, hi):
+                ints = dict(e.ints)
+                ints[v] = x
+                nxt.append(Env(ints, e.vecs))
+        out = nxt
+    return out
+
+
+def eq_lin(ctx, rule, construct, loc, got, want, facts, envs, what, loops=None):
     """Affine identity ``got == want`` (for all sizes) with grid witness."""
     ob = Ob(ctx, rule, construct, loc)
     if not isinstance(got, Lin):
@@ -203,13 +220,20 @@ def eq_lin(ctx, rule, construct, loc, got, want, facts, envs, what):
         return None
     proved = Q(facts).eq(got, want) is True
     wit = None
-    for env in envs:
-        try:
-            a, b = env.eval(got), env.eval(want)
-        except Uneval:
-            continue
-        if a != b:
-            wit = dict(env.describe(), got=str(a), expected=str(b))
+    diff = got - want
+    if not proved and diff.is_const() and diff.const != 0:
+        # the two affine forms differ by a constant: every instance is a witness
+        wit = {"difference": str(diff.const), "got": repr(got), "expected": repr(want)}
+    for env0 in ([] if (proved or wit) else envs):
+        for env in loop_envs(env0, loops):
+            try:
+                a, b = env.eval(got), env.eval(want)
+            except Uneval:
+                continue
+            if a != b:
+                wit = dict(env.describe(), got=str(a), expected=str(b))
+                break
+        if wit:
             break
     return ob.settle(proved, wit, "%s == %r" % (what, want), "%s is %r, expected %r" % (what, got, want))
 
@@ -238,7 +262,7 @@ def check_cells(ctx, rule, construct, loc, arr, dims, spec, facts, envs, ok, wha
         got, want = None, None
     proved = got is not None and want is not None and got == want
     wit = None
-    for env in envs:
+    for env in ([] if proved else envs):
         qc = Q(env=env)
         try:
             ranges = []
@@ -548,10 +572,15 @@ def rule_reducers(ctx, repo, classes):
 def one_fit_call(ctx, run, tag, loc, in_loop):
     calls = [c for c in run.fit_calls if c.kind == "fit"]
     if len(calls) != 1:
-        ctx.check(None if not calls else False, "R2", tag + ":fit-call", "",
-                  "expected exactly one regressor.fit site, found %d" % len(calls), loc)
+        ctx.undecided("R2", tag + ":fit-call", "expected exactly one interpretable regressor.fit site, found %d" % len(calls), loc)
         return None
     c = calls[0]
+    if isinstance(c.recv, ItemV):
+        item = list_item(c.recv.lst, c.recv.idx)
+        if item is None or not isinstance(item[0], EstV):
+            ctx.undecided("R2", tag + ":fit-call", "fitted object %r is not interpretable" % (c.recv,), loc)
+            return None
+        c.recv = item[0]
     if in_loop:
         good = len(c.loops) == 1 and isinstance(c.loops[0].it, Rng) and c.loops[0].it.step == ONE
         if not good:
@@ -663,7 +692,8 @@ def fit_multi(ctx, repo, run, tag, sci, facts, envs):
         return y_src(q.ev(coords[0] + W - 1 + q.vec_elem(Vec("fh"), coords[1])))
 
     if not (isinstance(ya, Nd) and ya.ndim == 2):
-        ctx.undecided("R2", tag + ":fit-y", "target passed to fit is not the 2-d target matrix: %r" % (ya,), loc)
+        ctx.check(False if isinstance(ya, Nd) else None, "R2", tag + ":fit-y", "",
+                  "target passed to the multi-output regressor is not the 2-d target matrix (one column per step): %r" % (ya,), loc)
     else:
         eq_lin(ctx, "R2", tag + ":fit-y-steps", loc, ya.shape[1], LFH, facts, envs, "target columns")
         eq_lin(ctx, "R2", tag + ":fit-y-rows", loc, ya.shape[0], rows, facts, envs, "target rows")
@@ -683,7 +713,7 @@ def pred_direct(ctx, repo, run, tag, sci, facts, envs, multi):
     pf = s.facts
     calls = [c for c in run.pred_calls if c.kind == "predict"]
     if len(calls) != 1 or len(calls[0].args) != 1:
-        ctx.check(None if not calls else False, "R2", tag + ":predict-call", "", "expected one regressor.predict(X) site, found %d" % len(calls), loc)
+        ctx.undecided("R2", tag + ":predict-call", "expected one interpretable regressor.predict(X) site, found %d" % len(calls), loc)
         return
     c = calls[0]
     X3 = unflat(c.args[0], sci, ctx, "R3", tag + ":X_pred", loc, "the X handed to regressor.predict")
@@ -811,11 +841,11 @@ def feedback_obligations(ctx, run, tag, loc, buf, X3, c, var, lp, pf, envs, ret,
     steps = lp.it.hi
     eq_lin(ctx, "R4", tag + ":buffer-length", loc, buf.shape[2], W + steps, pf, envs, "length of the feedback buffer")
     if expanding:
-        eq_lin(ctx, "R4", tag + ":slice-lo", loc, lo, ZERO, pf, envs, "start of the expanding window")
-        eq_lin(ctx, "R4", tag + ":slice-hi", loc, hi, W + lp.var, pf, envs, "end of the expanding window at iteration i")
+        eq_lin(ctx, "R4", tag + ":slice-lo", loc, lo, ZERO, pf, envs, "start of the expanding window", loops=[lp])
+        eq_lin(ctx, "R4", tag + ":slice-hi", loc, hi, W + lp.var, pf, envs, "end of the expanding window at iteration i", loops=[lp])
     else:
-        eq_lin(ctx, "R4", tag + ":slice-lo", loc, lo, lp.var, pf, envs, "start of the window at iteration i")
-        eq_lin(ctx, "R4", tag + ":slice-length", loc, hi - lo, W, pf, envs, "window length at iteration i")
+        eq_lin(ctx, "R4", tag + ":slice-lo", loc, lo, lp.var, pf, envs, "start of the window at iteration i", loops=[lp])
+        eq_lin(ctx, "R4", tag + ":slice-length", loc, hi - lo, W, pf, envs, "window length at iteration i", loops=[lp])
     # the store that feeds predictions back
     fb = [st for st in buf.stores if st.loops and [l.node for l in st.loops] == [l.node for l in c.loops]]
     init = [st for st in buf.stores if not st.loops]
@@ -831,10 +861,10 @@ def feedback_obligations(ctx, run, tag, loc, buf, X3, c, var, lp, pf, envs, ret,
         ctx.undecided("R4", tag + ":feedback-position", "feedback store is not a single lag position", loc)
         return
     eq_lin(ctx, "R4", tag + ":feedback-position", loc, pos[0], W + lp.var, pf, envs,
-           "position written at iteration i (the newest lag of iteration i+1)")
+           "position written at iteration i (the newest lag of iteration i+1)", loops=[lp])
     nxt_hi = hi.subst({var: lp.var + 1})
     eq_lin(ctx, "R4", tag + ":feedback-is-newest-lag", loc, pos[0], nxt_hi - 1, pf, envs,
-           "feedback position relative to the next iteration's window end")
+           "feedback position relative to the next iteration's window end", loops=[lp])
     # variable row: predictions go to the target row 0
     row = st.box[1]
     if expanding:
@@ -842,44 +872,63 @@ def feedback_obligations(ctx, run, tag, loc, buf, X3, c, var, lp, pf, envs, ret,
         ctx.check(True if good else (Q(pf).eq(row[0], ZERO) is True and row[2]) or None, "R4", tag + ":feedback-row",
                   "predictions are written to the target row", "feedback row is %r:%r" % (row[0], row[1]), loc)
     else:
-        eq_lin(ctx, "R4", tag + ":feedback-row", loc, row[0], ZERO, pf, envs, "variable row receiving the prediction")
+        eq_lin(ctx, "R4", tag + ":feedback-row", loc, row[0], ZERO, pf, envs, "variable row receiving the prediction", loops=[lp])
         ctx.check(bool(row[2]) or Q(pf).eq(row[1] - row[0], ONE) is True, "R4", tag + ":feedback-row-single",
                   "only the target row is overwritten", "feedback overwrites rows %r:%r" % (row[0], row[1]), loc)
     # value fed back = prediction made in the same iteration
-    q = Q(pf.copy())
+    qf = pf.copy()
+    qf.add_cmp(lp.var, ">=", lp.it.lo, "loop range")
+    qf.add_cmp(lp.var, "<=", lp.it.hi - 1, "loop range")
+    q = Q(qf)
     val = st.value
-    cont = resolve(("val", val), q) if isinstance(val, (Elem, CallV)) else None
-    if cont is None or cont[0] != "val" or not isinstance(cont[1], CallV):
-        if isinstance(val, Elem) or isinstance(val, CallV):
-            # element of y_pred written by an earlier / other iteration?
-            ctx.check(None if cont is None else False, "R4", tag + ":feedback-value", "",
-                      "value fed back is %s, not the prediction of the same iteration" % fmt(cont), loc)
-        else:
-            ctx.undecided("R4", tag + ":feedback-value", "value fed back is not interpretable: %r" % (val,), loc)
+    if not isinstance(val, (Elem, CallV)):
+        ctx.undecided("R4", tag + ":feedback-value", "value fed back is not interpretable: %r" % (val,), loc)
     else:
-        cv = cont[1]
-        same = cv.node is c.node and cv.binding.get(var) == lp.var
+        def fed(qq, it_val):
+            v = Elem(val.arr, val.coords, val.wraps, {"limit": {var: (it_val, st.seq)}}) if isinstance(val, Elem) else val
+            return resolve(("val", subst_val(v, {var: it_val}) if it_val is not lp.var else v), qq)
+
+        cont = fed(q, lp.var)
+        proved = (cont is not None and cont[0] == "val" and isinstance(cont[1], CallV) and cont[1].node is c.node
+                  and cont[1].binding.get(var) == lp.var)
         wit = None
-        if not same and cv.node is c.node:
-            wit = {"fed_back_iteration": repr(cv.binding.get(var)), "current_iteration": var}
-        ctx.check(same, "R4", tag + ":feedback-value", "the value fed back at iteration i is the prediction made at iteration i",
-                  "the value fed back at iteration i is the prediction of iteration %r" % (cv.binding.get(var),), loc, witness=wit)
+        for env0 in ([] if proved else envs):
+            for env in loop_envs(env0, [lp]):
+                qc = Q(env=env)
+                try:
+                    i_val = Lin.c(env.eval(lp.var))
+                    g = fed(qc, i_val)
+                except Uneval:
+                    continue
+                good = (g is not None and g[0] == "val" and isinstance(g[1], CallV) and g[1].node is c.node
+                        and g[1].binding.get(var) == i_val)
+                if not good:
+                    if g is None or (g[0] == "val" and not isinstance(g[1], CallV)):
+                        wit = "opaque"
+                    else:
+                        wit = dict(env.describe(), fed_back=("prediction of iteration %r" % g[1].binding.get(var)) if g[0] == "val" else fmt(g))
+                    break
+            if wit:
+                break
+        Ob(ctx, "R4", tag + ":feedback-value", loc).settle(
+            proved, wit, "the value fed back at iteration i is the prediction made at iteration i",
+            "the value fed back at iteration i is not the prediction made at iteration i")
     # initial fill: observed window at [0, w)
     win_y, win_x = last_window_specs(run)
     y_init = View(buf, [("sl", 0, ZERO), ("sl", 1, ZERO), ("sl", 2, ZERO)], [ONE, buf.shape[1], W])
     check_cells(ctx, "R4", tag + ":initial-window", loc, y_init, [("r", ZERO, ONE), ("v", ZERO, ONE), ("c", ZERO, W)], win_y, pf, envs,
-                "buffer[0, 0, c] = y[n - w + c] for c < w (last observed window, oldest first)", "feedback buffer", {"upto": c.seq})
+                "buffer[0, 0, c] = y[n - w + c] for c < w (last observed window, oldest first)", "feedback buffer", {"upto": c.seq + 1})
     if run.with_X:
         xv = View(buf, [("sl", 0, ZERO), ("sl", 1, ONE), ("sl", 2, ZERO)], [ONE, buf.shape[1] - 1, W])
         check_cells(ctx, "R4", tag + ":initial-window-X", loc, xv, [("r", ZERO, ONE), ("u", ZERO, NX), ("c", ZERO, W)], win_x, pf, envs,
-                    "buffer[0, 1+u, c] = X[n - w + c, u] for c < w", "feedback buffer (exogenous rows)", {"upto": c.seq})
+                    "buffer[0, 1+u, c] = X[n - w + c, u] for c < w", "feedback buffer (exogenous rows)", {"upto": c.seq + 1})
 
         def fut(coords, q):
             return ("src", "Xnew", (q.ev(coords[2]), q.ev(coords[1])))
 
         xf = View(buf, [("sl", 0, ZERO), ("sl", 1, ONE), ("sl", 2, W)], [ONE, buf.shape[1] - 1, steps])
         check_cells(ctx, "R4", tag + ":future-X", loc, xf, [("r", ZERO, ONE), ("u", ZERO, NX), ("s", ZERO, FHL)], fut, pf, envs,
-                    "buffer[0, 1+u, w+s] = X_future[s, u] (exogenous value of step s+1)", "feedback buffer (future exogenous rows)", {"upto": c.seq})
+                    "buffer[0, 1+u, w+s] = X_future[s, u] (exogenous value of step s+1)", "feedback buffer (future exogenous rows)", {"upto": c.seq + 1})
     # simulation on instances: every cell of every iteration's window holds the value of time n-w+i+c
     simulate_feedback(ctx, run, tag, loc, buf, X3, c, var, lp, pf, envs, expanding)
     # what is returned
@@ -914,7 +963,7 @@ def simulate_feedback(ctx, run, tag, loc, buf, X3, c, var, lp, pf, envs, expandi
     otherwise the prediction made for exactly that time (iteration time - n)."""
     wit = None
     checked = 0
-    for env in envs:
+    for env in envs[::3]:
         qc = Q(env=env)
         try:
             steps = int(env.eval(lp.it.hi))
@@ -924,8 +973,7 @@ def simulate_feedback(ctx, run, tag, loc, buf, X3, c, var, lp, pf, envs, expandi
                 width = int(env.eval(view.shape[2]))
                 for cc in range(width):
                     t = n - w + (0 if expanding else i) + cc
-                    got = resolve(view.cell([ZERO, ZERO, Lin.c(cc)], qc, limit={var: (Lin.c(i), False)}), qc,
-                                  limit={var: (Lin.c(i), False)})
+                    got = resolve(view.cell([ZERO, ZERO, Lin.c(cc)], qc, limit={var: (Lin.c(i), c.seq + 1)}), qc)
                     if t < n:
                         want = y_src(Lin.c(t))
                         good = got == want
@@ -975,7 +1023,7 @@ def fit_dirrec(ctx, repo, run, tag, sci, facts, envs):
         return
     check_buffers(ctx, "R2", tag + ":fit-X", loc, [X3], facts, envs)
     eq_lin(ctx, "R2", tag + ":fit-X:rows", loc, X3.shape[0], rows, facts, envs, "rows of the X handed to fit")
-    eq_lin(ctx, "R4", tag + ":fit-width", loc, X3.shape[2], W + lp.var, facts, envs, "width of regressor i's input (window + i earlier targets)")
+    eq_lin(ctx, "R4", tag + ":fit-width", loc, X3.shape[2], W + lp.var, facts, envs, "width of regressor i's input (window + i earlier targets)", loops=[lp])
     gen = _Gen(X3, var)
 
     def window(coords, q):
